@@ -134,3 +134,25 @@ def symmetric_complexes():
     out.append((['a', 'a*', '+', 'a', 'a*', '+', 'a', 'a*', '+', 'a', 'a*'], '(.+.)+..+..'))
     out.append((['a', '+', 'b', '+', 'a', '+', 'b'], '(+)+.+.'))
     return out
+
+
+def random_nested_components(rng, depth=2):
+    """a structure made of connected components nested inside loops (at nicks) of other components and placed next to each
+    other: the shapes that stress the scan / splice bookkeeping of the component split"""
+    from . import ref
+    def connected(nstr):
+        for _ in range(50):
+            s = random_structure(rng, rng.randint(nstr, nstr + 5), nstrands=nstr, pair_bias=0.7)
+            if len(ref.ref_loops(s.split('+'))[2]) == 1:
+                return s
+        return '+'.join(['.'] * nstr) if nstr == 1 else '(' + '+'.join([''] * (nstr - 1)).replace('+', '+', nstr) + ')' if False else '(+)'
+    def comp(d):
+        s = connected(rng.randint(1, 4))
+        if d > 0:
+            nicks = [i for i, ch in enumerate(s) if ch == '+']
+            rng.shuffle(nicks)
+            for i in sorted(nicks[:rng.randint(0, 2)], reverse=True):
+                inner = '+'.join(comp(d - 1) for _ in range(rng.randint(1, 2)))
+                s = s[:i] + '+' + inner + '+' + s[i + 1:]
+        return s
+    return '+'.join(comp(depth) for _ in range(rng.randint(1, 3)))
